@@ -26,6 +26,9 @@ struct Ep {
     len: u64,
     d: u64,
     compact: u32,
+    /// the real difficulty is `d << shift` (0 in the main grid; 248 in the scaled completeness
+    /// pass, where every product with tau reaches the top of the 256-bit range)
+    shift: u32,
 }
 
 impl Ep {
@@ -187,25 +190,36 @@ fn eval_history(seq: &[Ep], full_positions: bool, acc: &mut Acc) {
                     "true_accumulated": true_total.to_string(),
                 })
             };
+            let shift = first.shift;
             for base in [1000u128, 1u128 << 100] {
+                if shift > 0 && base != 1000 {
+                    continue;
+                }
+                // (scaled pass: start total 1000, all difficulties shifted)
                 let start_total = u(base);
                 // ---- completeness: the true history must be accepted
-                let end_total = u(base + true_total);
+                // (in the scaled pass the accumulated difficulty may not fit into 256 bits: then only
+                // the trend check is evaluated)
+                let total_fits = shift == 0 || (true_total >> (255 - shift)) == 0;
+                let end_total = if shift > 0 && total_fits { u(base) + (u(true_total) << shift) } else if shift > 0 { U256::zero() } else { u(base + true_total) };
                 acc.calls += 2;
                 acc.complete_checked += 1;
                 let tau_res = verify_tau(start_epoch, first.compact, end_epoch, last.compact, TAU);
                 match tau_res {
                     Ok(true) => {}
                     Ok(false) => acc.push(
-                        "reject-legal/verify_tau-false".to_owned(),
+                        format!("{}reject-legal/verify_tau-false", if shift > 0 { "scaled/" } else { "" }),
                         "verify_tau returns false for a legal history".to_owned(),
                         describe(true_total as i128),
                     ),
                     Err(status) => acc.push(
-                        "reject-legal/verify_tau-error".to_owned(),
+                        format!("{}reject-legal/verify_tau-error", if shift > 0 { "scaled/" } else { "" }),
                         format!("verify_tau returns {} for a legal history", status),
                         describe(true_total as i128),
                     ),
+                }
+                if !total_fits {
+                    continue;
                 }
                 let res = verify_total_difficulty(
                     start_epoch,
@@ -227,7 +241,7 @@ fn eval_history(seq: &[Ep], full_positions: bool, acc: &mut Acc) {
                         .filter(|t| t.len() <= 12 && msg.contains("n: "))
                         .unwrap_or_else(|| format!("{}", n));
                     acc.push(
-                        format!("reject-legal/total-difficulty/{}/n={}", classify_err(&msg), nk),
+                        format!("{}reject-legal/total-difficulty/{}/n={}", if shift > 0 { "scaled/" } else { "" }, classify_err(&msg), nk),
                         format!(
                             "verify_total_difficulty rejects a legal history: {}",
                             msg.split_whitespace().collect::<Vec<_>>().join(" ")
@@ -235,7 +249,7 @@ fn eval_history(seq: &[Ep], full_positions: bool, acc: &mut Acc) {
                         describe(true_total as i128),
                     );
                 }
-                if base != 1000 {
+                if base != 1000 || shift > 0 {
                     continue;
                 }
                 // ---- soundness: must-reject set
@@ -488,7 +502,7 @@ pub(crate) fn run(opts: &Opts, report: &mut Report) {
     let mut eps: Vec<Ep> = vec![];
     for &len in &lengths {
         for &(d, compact) in &diffs {
-            eps.push(Ep { len, d, compact });
+            eps.push(Ep { len, d, compact, shift: 0 });
         }
     }
     // one worker per first epoch
@@ -539,6 +553,45 @@ pub(crate) fn run(opts: &Opts, report: &mut Report) {
         }
     });
     let mut acc = acc_all.into_inner().unwrap();
+    // ---- scaled completeness pass: the same legal histories with every difficulty shifted by
+    // 248 and by 250 bits (block difficulties 2^248 .. 2^254, exactly representable as compact targets), so
+    // that start * tau^n and the estimated limits reach and exceed 2^256; <= 3 switches
+    #[allow(non_snake_case)]
+    for SHIFT in [248u32, 250] {
+        let mut eps_scaled: Vec<Ep> = vec![];
+        for &len in &[1u64, 2, 3] {
+            for d in [1u64, 2, 4, 8, 16] {
+                let real = U256::from(d) << SHIFT;
+                let compact = difficulty_to_compact(real.clone());
+                if compact_to_difficulty(compact) == real {
+                    eps_scaled.push(Ep { len, d, compact, shift: SHIFT });
+                }
+            }
+        }
+        fn dfs2(seq: &mut Vec<Ep>, target: usize, eps: &[Ep], acc: &mut Acc) {
+            if seq.len() == target {
+                eval_history(seq, true, acc);
+                return;
+            }
+            let last = seq[seq.len() - 1];
+            for e in eps.iter() {
+                if legal_step(&last, e) {
+                    seq.push(*e);
+                    dfs2(seq, target, eps, acc);
+                    seq.pop();
+                }
+            }
+        }
+        let before = acc.histories;
+        for first in eps_scaled.clone() {
+            for n in 0..=3usize {
+                let mut seq = vec![first];
+                dfs2(&mut seq, n + 1, &eps_scaled, &mut acc);
+            }
+        }
+        report.count("scaled_histories", acc.histories - before);
+        report.count(&format!("scaled_difficulties/shift{}", SHIFT), eps_scaled.len() as u64 / 3);
+    }
     too_fast_cases(&diffs, &mut acc);
     never_abort(thorough, &mut acc);
 
